@@ -42,6 +42,19 @@ prop("C20",
  "Trusted: mongodb-forks/digest (sends credentials only in response to a 401 challenge), net/http.",
  "inter-procedural taint with an allow-list of use kinds; who-may-use scan of the credential-holding struct", "DESIGN.md section 3, C20")
 
+prop("C01",
+ "Structural necessary conditions of full redaction, decided exactly on SSA + reconstructed tables: the line gate and the dispatch of the three command documents and of every zone key; every store into an output container and every walker return classified as sanitised or as a raw pass-through justified by one of ten enumerated guard classes (guards from dominating branch edges, short-circuit phis and disjunctive joins); in-place loops cover the whole container; Exempt/FieldName/Namespace table positions confined to a reviewed allow-list (tables reconstructed by abstract interpretation of the initialisers, 367 Set calls); flag->setter->global wiring; constant remote placeholder. Level 'other': whether the table lookup routes every grammar position to the intended entry is value-level and not decided.",
+ "Trusted: go/ssa; orderedmap semantics; the reviewed allow-list rules/table_policy.json; HashName/Encrypt results are not the plaintext. Not decided: grammar coverage of the tables, JSON escaping.",
+ "provenance dataflow + control-dependence guard atoms over SSA (sink analysis), abstract interpretation of table initialisers, per-iteration store counting, flag wiring flow", "DESIGN.md section 3, C01")
+prop("C03",
+ "Container typestate, leaf-kind preservation and parser/serialiser agreement, decided on SSA: exactly one store per iteration into the associated fresh map/slice at the current key/index (bounded path enumeration per loop body), output length = input length, scalar-step returns keep the JSON class for every kind the parser produces and call sites pass (class-set refinement by guard atoms), json.Marshal only receives provable non-containers, only structural constants or marshalled bytes are written, brackets closed on every success path, the scan loop writes exactly the serialiser's result. Level 'other': encoding/json's rendering is trusted.",
+ "Trusted: encoding/json (Token kinds, Marshal of scalars), orderedmap iteration order. Not decided: duplicate sibling keys, escaping.",
+ "typestate dataflow over loop bodies, JSON-class abstract domain over guard atoms, who-may-write scan of the serialiser", "DESIGN.md section 3, C03")
+prop("C07",
+ "Discharge of every potentially panicking instruction on the per-line path by a local guard, decided on SSA: unchecked type assertions need a dominating comma-ok success on the same value/type (one listed exception), index/slice bounds need the range-loop index, a dominating len comparison (linear reasoning on len(x)+c) or an inter-procedural non-emptiness summary of key-path parameters, no division/panic/MustCompile of non-constants, no exit from inside the scan loop except returning a non-nil error, default split function. Level 'other': panics inside libraries are not decided.",
+ "Trusted: encoding/json, regexp, orderedmap, Tink do not panic on their inputs; pointers to parsed nodes and table nodes are non-nil by construction.",
+ "panic-obligation enumeration over SSA with guard-fact discharge (dominance, small linear bound reasoning, call-site summaries)", "DESIGN.md section 3, C07")
+
 ALL = ["C%02d" % i for i in range(1, 21)]
 checks = []
 for pid in ALL:
